@@ -51,6 +51,20 @@ Proof. intros H. cbn. now rewrite H. Qed.
 (* every spelling of a tag normalizes to the same test: t, @t  |  -t, ~t, -@t, ~@t *)
 Definition plain_start (c : N) : bool := negb (N.eqb c cAT || N.eqb c cDASH || N.eqb c cTILDE).
 
+(* an empty (or blank) alternative carries no negation prefix: it is an ordinary alternative, which no element with real tags
+   satisfies -- so "a," means a and an empty --tags= value next to other arguments selects nothing *)
+Lemma empty_alternative_is_positive t tags :
+  strip t = [] -> v1_test tags (normalize_tag_v1 t) = mem_tag [] tags.
+Proof. intros H. unfold normalize_tag_v1. rewrite H. reflexivity. Qed.
+
+Lemma empty_alternative_never_holds t tags :
+  strip t = [] -> ~ In [] tags -> v1_test tags (normalize_tag_v1 t) = false.
+Proof.
+  intros H Hn. rewrite (empty_alternative_is_positive t tags H).
+  unfold mem_tag. destruct (existsb (ustr_eqb []) tags) eqn:E; [|reflexivity].
+  apply existsb_exists in E. destruct E as [x [Hin Hx]]. apply ustr_eqb_eq in Hx. subst x. contradiction.
+Qed.
+
 Lemma normalize_spellings c t :
   plain_start c = true -> strip (c :: t) = c :: t ->
   strip (cAT :: c :: t) = cAT :: c :: t -> strip (cDASH :: c :: t) = cDASH :: c :: t ->
